@@ -99,6 +99,8 @@ Record session_state := {
   ss_pending : list string;    (* message ids with a response handler installed by startDialout *)
   ss_mcu : bool;               (* the hub has a media server (Hub.mcu != nil) *)
   ss_inroom : bool;            (* the session is in a room *)
+  ss_self : string;            (* the session's own public id (session.PublicId()) *)
+  ss_self_user : string;       (* its user id (session.UserId()); empty for internal clients and anonymous sessions *)
   (* Sessions of the sender's backend that are known to this hub but have no connection at the
      moment (the connection was interrupted, the session is kept to be resumed): what is sent
      to them goes through ClientSession.storePendingMessage, which looks into the payload. *)
@@ -474,6 +476,20 @@ Section WithOracles.
      (eqs t "requestoffer" || eqs t "offer" || eqs t "answer" || eqs t "endOfCandidates" || eqs t "selectStream" || eqs t "candidate"))
     || eqs t "sendoffer".
 
+  (* "Don't loop messages to the sender": a message / control message whose recipient is the sender's
+     own session id, or - a non-empty - user id equal to the sender's, is dropped: the handler returns
+     without reply, without handing anything to anybody and - what the locks are about - with every
+     lock it took released (processMessageMsg looks its own session up through GetSessionByPublicId,
+     processControlMsg compares the ids before it takes Hub.mu). *)
+  Definition to_self (st : session_state) (rtype sid uid : string) : bool :=
+    (eqs rtype "session" && eqs sid (ss_self st)) ||
+    (eqs rtype "user" && negb (eqs uid "") && eqs uid (ss_self_user st)).
+
+  (* payloads to a session id that are handed to the media server before the recipient is looked up *)
+  Definition mcu_direct (d : gval) : bool :=
+    let t := sfld "Type" d in
+    eqs t "requestoffer" || eqs t "offer" || eqs t "answer" || eqs t "endOfCandidates" || eqs t "selectStream" || eqs t "candidate".
+
   (* A session of this hub is handed the message directly; users, rooms and calls are reached
      through the event bus: the message travels as JSON text inside
      {"type":"message","message":{"type":..,"message":{"sender":..,"data":<data>}}} and is parsed
@@ -497,8 +513,10 @@ Section WithOracles.
         let rc := fld "Recipient" mm in
         let ty := sfld "Type" rc in
         let data := match as_raw (fld "Data" mm) with Some j => j | None => JNull end in
-        let plain := forward st ty (sfld "SessionId" rc) (sfld "UserId" rc) data
-                       (CMessage ty (sfld "SessionId" rc) (sfld "UserId" rc) data None) in
+        let self := to_self st ty (sfld "SessionId" rc) (sfld "UserId" rc) in
+        let plain := if self then VIgnored
+                     else forward st ty (sfld "SessionId" rc) (sfld "UserId" rc) data
+                            (CMessage ty (sfld "SessionId" rc) (sfld "UserId" rc) data None) in
         let looks_at_payload :=
           ss_mcu st && (eqs ty "session" || ((eqs ty "room" || eqs ty "call") && ss_inroom st)) in
         if looks_at_payload then
@@ -509,7 +527,9 @@ Section WithOracles.
               | Some c => VError c (msg_id m)
               | None =>
                   let c := CMessage ty (sfld "SessionId" rc) (sfld "UserId" rc) data (Some d) in
-                  if mcu_consumes ty d then VDispatch [c]
+                  if eqs ty "session" && mcu_direct d then VDispatch [c]     (* also from / to the sender itself: publishing *)
+                  else if self then VIgnored
+                  else if mcu_consumes ty d then VDispatch [c]
                   else forward st ty (sfld "SessionId" rc) (sfld "UserId" rc) data c
               end
           end
@@ -524,7 +544,9 @@ Section WithOracles.
         let rc := fld "Recipient" c in
         let data := match as_raw (fld "Data" c) with Some j => j | None => JNull end in
         let call := CControl (sfld "Type" rc) (sfld "SessionId" rc) (sfld "UserId" rc) data in
-        if reaches_offline st (sfld "Type" rc) (sfld "SessionId" rc) (sfld "UserId" rc) && delivered (sfld "Type" rc) data
+        (* allowed to control or not (the permission is Hub.v's): to the sender itself nothing happens *)
+        if to_self st (sfld "Type" rc) (sfld "SessionId" rc) (sfld "UserId" rc) then VIgnored
+        else if reaches_offline st (sfld "Type" rc) (sfld "SessionId" rc) (sfld "UserId" rc) && delivered (sfld "Type" rc) data
         then VDispatch [call; CStore false] else VDispatch [call]
     end.
 
